@@ -78,6 +78,10 @@ var c20Snips = []struct {
 	{"strfmt", "strfmt(fmtd, \"%v-%v\", 1, \"a\")\n", false},
 	{"loop", "for i = 0; i < 3; i = i + 1 {\n  add_key(cnt, i)\n}\n", false},
 	{"use", "use(\"lib.p\")\n", false},
+	// keys whose names collide with the point's own attributes
+	{"key_named_time", "add_key(time, 1600000000000000000)\n", false},
+	{"keys_named_like_attributes", "add_key(measurement, \"not the measurement\")\nadd_key(name, 5)\nset_tag(time, \"tag called time\")\nadd_key(fields, 1.5)\nadd_key(tags, true)\n", false},
+	{"cast_time_key", "add_key(time, \"312\")\ncast(time, \"int\")\n", false},
 	{"exit", "add_key(before_exit, 1)\nexit()\nadd_key(after_exit, 1)\n", false},
 	{"run_error", "add_key(before_err, 1)\nx = 1 / zero_is_nil\n", false},
 	{"load_error", "nosuch_function()\n", false},
@@ -123,11 +127,12 @@ func (c20) build(c *mon.Ctx) c20Case {
 			"nginx,host=h1,region=cn f1=1.5,f2=\"str\",f3=7i,f4=true 1700000000123456789",
 			"m2 message=\"from lp\",f1=2i 1600000000000000000",
 			"disk,t=a\\ b used=12i,free=3.25,f2=\"x,y\" 1650000000000000001",
+			"http,host=h1 time=312i,code=200i,measurement=\"m\" 1700000000123456789",
 		}
 		k := 1 + r.Intn(3)
 		var l []string
 		for j := 0; j < k; j++ {
-			l = append(l, pts[(r.Intn(3)+j)%3])
+			l = append(l, pts[(r.Intn(4)+j)%4])
 		}
 		cs.Input = strings.Join(l, "\n") + "\n"
 		switch r.Intn(6) {
